@@ -28,7 +28,7 @@ theorem idx_nat {α : Type} [Inhabited α] (xs : List α) (i : Nat) (hi : i < xs
 
 theorem forRange_collect (xs : List UnAckedStz) : ∀ (k : Nat) (i : Nat) (r : List UnAckedStz), i + k ≤ xs.length →
     (GoRT.forRangeAux (ρ := List UnAckedStz) (fun (j : Int) r => GoRT.Step.next (r ++ [GoRT.idx xs j])) k (i : Int) r)
-      = GoRT.Step.next (r ++ (xs.drop i).take k) := by
+      = GoRT.Done.fin (r ++ (xs.drop i).take k) := by
   intro k
   induction k with
   | zero => intro i r _; simp [GoRT.forRangeAux]
@@ -44,7 +44,7 @@ theorem forRange_collect (xs : List UnAckedStz) : ∀ (k : Nat) (i : Nat) (r : L
 /-- the loop of `PeekN`: collecting the first `k ≤ len` entries -/
 theorem peek_loop (xs : List UnAckedStz) (k : Nat) (h : k ≤ xs.length) :
     GoRT.forRange (ρ := List UnAckedStz) (0 : Int) (k : Int) (fun (j : Int) r => GoRT.Step.next (r ++ [GoRT.idx xs j])) []
-      = GoRT.Step.next (xs.take k) := by
+      = GoRT.Done.fin (xs.take k) := by
   have := forRange_collect xs k 0 [] (by omega)
   simpa [GoRT.forRange] using this
 
@@ -104,7 +104,7 @@ theorem tr_PopN (s : QS) (n : Int) :
 /-- `Push`: for every non-nil argument (whatever its Id) the translated code appends the model's entry and moves
 the counter; no error. -/
 theorem tr_Push (s : QS) (x : String) (anyId : Int) :
-    UnAckQueue_Push (conc s) { isNil := false, Id := anyId, Stz := x.toList } = (false, conc (pushS s x)) := by
+    UnAckQueue_Push (conc s) { isNil := false, Id := anyId, Stz := x.toList } = (GoRT.Err.none, conc (pushS s x)) := by
   unfold UnAckQueue_Push pushS nextIdS
   cases hq : s.q.getLast? with
   | none =>
@@ -125,7 +125,7 @@ theorem tr_Push (s : QS) (x : String) (anyId : Int) :
     simp [conc, GoRT.len, hidx, concE, hne]
 
 /-- a nil argument (or, in Go, an element of another type) is refused and nothing changes -/
-theorem tr_Push_nil (s : QS) : UnAckQueue_Push (conc s) UnAckedStz.nil = (true, conc s) := by
+theorem tr_Push_nil (s : QS) : UnAckQueue_Push (conc s) UnAckedStz.nil = (GoRT.Err.plain, conc s) := by
   unfold UnAckQueue_Push
   by_cases h : (GoRT.len (conc s).Uslice != 0) = true <;> simp [h, UnAckedStz.nil] <;> rfl
 
@@ -133,7 +133,7 @@ theorem tr_Push_nil (s : QS) : UnAckQueue_Push (conc s) UnAckedStz.nil = (true, 
 theorem tr_nil_receiver (n : Int) (x : UnAckedStz) :
     UnAckQueue_Peek UnAckQueue.nil = UnAckedStz.nil ∧ UnAckQueue_PeekN UnAckQueue.nil n = [] ∧
     UnAckQueue_Pop UnAckQueue.nil = (UnAckedStz.nil, UnAckQueue.nil) ∧ UnAckQueue_PopN UnAckQueue.nil n = ([], UnAckQueue.nil) ∧
-    UnAckQueue_Push UnAckQueue.nil x = (false, UnAckQueue.nil) ∧ UnAckQueue_Empty UnAckQueue.nil = true := by
+    UnAckQueue_Push UnAckQueue.nil x = (GoRT.Err.none, UnAckQueue.nil) ∧ UnAckQueue_Empty UnAckQueue.nil = true := by
   simp [UnAckQueue_Peek, UnAckQueue_PeekN, UnAckQueue_Pop, UnAckQueue_PopN, UnAckQueue_Push, UnAckQueue_Empty, UnAckQueue.nil]
 
 /-- The translated methods, driven by an op list, compute what the model's `runS` computes: the refinement that carries
@@ -142,7 +142,7 @@ def outE : Op → QS → Out
   | op, s => (stepS s op).2
 
 def goStep (u : UnAckQueue) : Op → UnAckQueue × List UnAckedStz × Bool
-  | .push x  => let r := UnAckQueue_Push u { isNil := false, Id := 0, Stz := x.toList }; (r.2, [], r.1)
+  | .push x  => let r := UnAckQueue_Push u { isNil := false, Id := 0, Stz := x.toList }; (r.2, [], r.1.isErr)
   | .pop     => let r := UnAckQueue_Pop u; (r.2, if r.1.isNil then [] else [r.1], false)
   | .popn k  => let r := UnAckQueue_PopN u k; (r.2, r.1, false)
   | .peek    => let r := UnAckQueue_Peek u; (u, if r.isNil then [] else [r], false)
